@@ -1524,6 +1524,11 @@ func (s *sharedEntryAttributes) AddCacheUpdateRecursive(ctx context.Context, c *
 	// end of path reached, add LeafEntry
 	// continue with recursive add otherwise
 	if idx == len(c.GetPath()) {
+		// only schema nodes carry values, the key levels of a list have no schema: a path that ends
+		// there names the list without (all of) its keys
+		if s.schema == nil && s.parent != nil {
+			return nil, fmt.Errorf("path %s ends within the keys of list %s, no value can be set there", strings.Join(c.GetPath(), "/"), s)
+		}
 		// delegate update handling to leafVariants
 		s.leafVariants.Add(NewLeafEntry(c, flags, s))
 		return s, nil
